@@ -48,6 +48,10 @@ class BuiltinMixin:
             return mk_int(f(v.z))
         if v.t is TNone:
             self.py_raise('TypeError')
+        if isinstance(v.t, TAny):
+            r = self.any_op('len', [v])
+            if r is not None:
+                return r
         if isinstance(v.t, (TSet, TDict)):
             if v.z is None:
                 return mk_int(0)      # an empty display
@@ -363,6 +367,24 @@ class BuiltinMixin:
     def bi_enumerate(self, args, kwargs, node):
         return Py('enumerate', args[0])
 
+    def bi_zip(self, args, kwargs, node):
+        '''zip of two lists: the list of pairs, as long as the shorter one'''
+        from . import lists as L
+        if len(args) != 2 or not all(isinstance(a.t, TList) for a in args):
+            raise Unsupported('zip of %s' % [str(a.t) for a in args])
+        a, b = args
+        tt = TTuple([a.t.elem, b.t.elem])
+        lt = TList(tt)
+        r = fresh(lt, 'zipped')
+        na, nb = L.l_len(a.t, a.z), L.l_len(b.t, b.z)
+        i = z3.Int('zp_i')
+        sel = L.l_get(lt, r.z, i)
+        self.assume(L.canon(lt, r.z))
+        self.assume(L.l_len(lt, r.z) == z3.If(na <= nb, na, nb))
+        self.assume(z3.ForAll([i], z3.Implies(z3.And(i >= 0, i < L.l_len(lt, r.z)),
+                                              sel == tt.mk(L.l_get(a.t, a.z, i), L.l_get(b.t, b.z, i))), patterns=[sel]))
+        return r
+
     def bi_range(self, args, kwargs, node):
         cs = [concrete_int(a.z) for a in args]
         if all(c is not None for c in cs) and len(range(*cs)) <= 8:
@@ -594,6 +616,19 @@ class BuiltinMixin:
         if name == 'items':
             ks = self.dict_keys(recv)
             return Py('dictitems', ks, recv)
+        if name == 'values':
+            # the values in key order: vals[i] is the value under the i-th key
+            from . import lists as L
+            ks = self.dict_keys(recv)
+            lt = TList(t.v)
+            vals = fresh(lt, 'values')
+            i = z3.Int('dv_i')
+            sel = L.l_get(lt, vals.z, i)
+            self.assume(L.canon(lt, vals.z))
+            self.assume(L.l_len(lt, vals.z) == L.l_len(ks.t, ks.z))
+            self.assume(z3.ForAll([i], z3.Implies(z3.And(i >= 0, i < L.l_len(lt, vals.z)),
+                                                  sel == z3.Select(mp, L.l_get(ks.t, ks.z, i))), patterns=[sel]))
+            return vals
         if name == 'clear':
             self.store_back(expr, recv, V(t, t.mk(t.empty_dom(), mp), lval=recv.lval))
             return NONE
